@@ -1,7 +1,7 @@
 ------------------------- MODULE Trace_FormulaImpl -------------------------
 (***************************************************************************)
 (* Known deviations of the implementation's formula machinery             *)
-(* (helper::formula parse_to_tokens / render / adjustment_*), stated as    *)
+(* (helper::formula parse_to_tokens, render, adjustment_x), stated as     *)
 (* the exact function the code computes on a token list.  Used only by the *)
 (* trace specifications of C08 and C09 to explain an observation that the  *)
 (* intended specification (Formula.tla) does not explain.                  *)
@@ -128,7 +128,8 @@ HasQuote(cs) == \E i \in DOMAIN cs : cs[i] = "\""
 ArrImplText(rows) == "ARRAY(" \o Join([i \in DOMAIN rows |-> "ARRAYROW(" \o Join(rows[i], ",") \o ")"], ",") \o ")"
 ImplTok(t, op, E) ==
   CASE t.k = "ref"  -> ImplRefTok(t, op, E)
-    [] t.k = "name" -> IF NameIsColOnly(t.cs) /\ op.k \in {"move", "rem"} /\ "colonly" \in E THEN PANIC ELSE t
+    [] t.k = "name" -> IF NameIsColOnly(t.cs) /\ "colonly" \in E /\ (op.k = "move" \/ (op.k = "rem" /\ op.own = op.edited))
+                       THEN PANIC ELSE t            \* (an unqualified operand is processed only on its own sheet)
     [] t.k = "str"  -> IF HasQuote(t.cs) /\ "dq" \in E THEN Raw("\"" \o Cd!Concat(t.cs) \o "\"") ELSE t
     [] t.k = "arr"  -> IF "arr" \in E THEN Raw(ArrImplText(t.rows)) ELSE t
     [] t.k = "pre"  -> IF t.s = "+" /\ "uplus" \in E THEN DROP ELSE t
